@@ -99,6 +99,7 @@ func (e *Engine) callFunction(st *State, fn *ssa.Function, args []Value, bind []
 	if c != nil && !c.Inline && !(e.cur != nil && e.cur.fn == fn) {
 		v := e.applyContract(st, fn, c, args, bind, pos)
 		setRes(st, res, v)
+		e.markCall(st, fn, args)
 		return []*State{st}
 	}
 	if c != nil && e.cur != nil && e.cur.fn == fn {
@@ -120,8 +121,29 @@ func (e *Engine) callFunction(st *State, fn *ssa.Function, args []Value, bind []
 	outs := e.runFunction(st, fn, args, bind, false)
 	for _, o := range outs {
 		setRes(o, res, o.retVal)
+		e.markCall(o, fn, args)
 	}
 	return outs
+}
+
+// markCall applies the ghost-mark rules attached to calls of fn.
+func (e *Engine) markCall(st *State, fn *ssa.Function, args []Value) {
+	p := pkgOf(fn)
+	if p == nil {
+		return
+	}
+	ps, ok := e.specs[p.Path()]
+	if !ok || len(ps.MarkRules) == 0 {
+		return
+	}
+	_, rel := e.relName(fn)
+	vars := map[string]Value{}
+	for i, pa := range fn.Params {
+		if i < len(args) {
+			vars[pa.Name()] = wrapTyped(args[i], pa.Type())
+		}
+	}
+	e.applyMarkRules(st, "call", rel, p, vars)
 }
 
 func pkgOf(fn *ssa.Function) *types.Package {
@@ -578,12 +600,18 @@ func (e *Engine) applyContract(st *State, fn *ssa.Function, c *Contract, args []
 	}
 	// case preconditions: at least one case must apply when there are only cases
 	// effects
-	e.interfereAcquired(st, env, c)
 	e.havocModifies(st, env, c)
+	e.interfereAcquired(st, env, c)
 	if c.Emits {
 		st.havocTrace()
 	}
-	if c.Allocs || c.ModAny {
+	anyMod := c.ModAny
+	for _, m := range c.Modifies {
+		if m.Any {
+			anyMod = true
+		}
+	}
+	if c.Allocs || anyMod {
 		st.havocAlloc()
 	}
 	var rv Value
@@ -648,24 +676,63 @@ func clauseName(c *Clause, i int) string {
 // contents, everything else is unchanged.
 func (e *Engine) havocModifies(st *State, env *SpecEnv, c *Contract) {
 	if c.ModAny {
-		for k, so := range e.heapKeys {
-			st.havocHeapKey(KeySort{k, so})
-		}
-		e.note("callee with 'modifies *': all known heap arrays havocked")
+		e.havocAll(st, nil)
+		e.note("callee with 'modifies *': all known heap arrays havocked except init-only fields; monotone flags only raised")
 		return
 	}
 	for _, m := range c.Modifies {
+		var cond Term
+		hasCond := false
+		if m.When != nil {
+			cond = e.evalSpecBool(env.inOld(), m.When)
+			hasCond = true
+			if cond.S == "false" {
+				continue
+			}
+			if cond.S == "true" {
+				hasCond = false
+			}
+		}
+		havocKey := func(ks KeySort) {
+			if !hasCond {
+				st.havocHeapKey(ks)
+				return
+			}
+			e.noteHeapKey(ks.Key, ks.Sort)
+			a := st.heapArr(ks.Key, ks.Sort)
+			fresh := e.ctx.Fresh(heapSym(ks.Key)+"@c", ks.Sort)
+			st.setHeapArr(ks.Key, Ite(cond, fresh, a))
+		}
+		havocSlot := func(ks KeySort, ref Term) {
+			if !hasCond {
+				st.havocHeapSlot(ks, ref)
+				return
+			}
+			e.noteHeapKey(ks.Key, ks.Sort)
+			a := st.heapArr(ks.Key, ks.Sort)
+			fresh := e.ctx.Fresh(heapSym(ks.Key)+"@s", ks.Sort.Val)
+			st.setHeapArr(ks.Key, Ite(cond, Store(a, ref, fresh), a))
+		}
+		if m.Any {
+			if hasCond {
+				e.havocAll(st, &cond)
+			} else {
+				e.havocAll(st, nil)
+			}
+			e.note("callee with conditional 'modifies *': all known heap arrays havocked under the condition except init-only fields")
+			continue
+		}
 		if m.All != "" {
 			for _, ks := range e.resolveAllLoc(env, m.All) {
-				st.havocHeapKey(ks)
+				havocKey(ks)
 			}
 			continue
 		}
 		for _, tgt := range e.modTargets(env, m.Expr) {
 			if tgt.whole {
-				st.havocHeapKey(tgt.ks)
+				havocKey(tgt.ks)
 			} else {
-				st.havocHeapSlot(tgt.ks, tgt.ref)
+				havocSlot(tgt.ks, tgt.ref)
 			}
 		}
 	}
@@ -682,6 +749,10 @@ type modTarget struct {
 // s[*] (all elements of slice s), x.f[*].g ...
 func (e *Engine) modTargets(env *SpecEnv, x *SExpr) []modTarget {
 	// s[*] is parsed as index with ident "*"?  we accept the call form elems(s)
+	if x.Op == "call" && x.Args[0].Op == "ident" && x.Args[0].Name == "chanstate" {
+		ch := e.evalSpecTerm(env, x.Args[1])
+		return []modTarget{{ks: e.chanKey("closed"), ref: ch}}
+	}
 	if x.Op == "call" && x.Args[0].Op == "ident" && x.Args[0].Name == "elems" {
 		sv, ok := e.evalSpec(env, x.Args[1]).(SliceV)
 		if !ok {
@@ -708,7 +779,11 @@ func (e *Engine) modTargets(env *SpecEnv, x *SExpr) []modTarget {
 			}
 			suffix, ix := e.pathSuffix(p)
 			var out []modTarget
+			initOnly, _ := e.stableKeys()
 			for _, ks := range e.leafKeys(p.rootName(e)+suffix, ft, len(ix)) {
+				if initOnly[ks.Key] {
+					continue // the field itself never changes; only what it refers to
+				}
 				out = append(out, modTarget{ks: ks, ref: e.rootRef(env.st, p), whole: len(ix) > 0 && false})
 			}
 			// a map-typed field: the contents of the map it refers to may change too
